@@ -250,4 +250,4 @@ def strategy(tier):
     )
 
 
-PARTS = [Part("twin", run, strategy, {"quick": 2000, "thorough": 50000}, rule=RULE)]
+PARTS = [Part("twin", run, strategy, {"quick": 2000, "thorough": 20000}, rule=RULE)]
